@@ -443,8 +443,8 @@ func runDKG(t *testing.T, rc *RunCtx) {
 	c := NewCluster(t, rc, s, ClusterCfg{IDs: ids, Order: order, NdAccounts: 1})
 	defer c.Close()
 	initiator := c.Nodes[ch.Pick(len(c.Nodes), 0)]
-	// Half of the runs: the client signs with the new account on every participant the instant it has its answer.
-	c.PromptUse = ch.Pick(2, 0) == 1
+	// The client signs with the new account on every participant the instant it has its answer.
+	c.PromptUse = true
 	// A third of the runs: clients send no passphrase of their own with their generation requests.
 	if ch.Pick(3, 0) == 2 {
 		c.OmitPassphrase = true
